@@ -48,12 +48,12 @@ EDIT_REPLACE = ["ldb_buffer_varint32:vp_buffer_varint32", "ldb_buffer_varint64:v
                 "ldb_buffer_export:vp_buffer_export"]
 
 
-def replay_obl(b0, b1, b2, rot, tier="quick"):
+def replay_obl(b0, b1, b2, rot, tier="quick", l2level=2):
     nb = b0 + b1 + b2
     reccap = 30 + 14 + nb * 46
-    return Obl("e.replay-B%d.%d.%d-R%d" % (b0, b1, b2, rot), "C14/replay.c",
+    return Obl("e.replay-B%d.%d.%d-R%d%s" % (b0, b1, b2, rot, "" if l2level == 2 else "-deep%d" % l2level), "C14/replay.c",
                real=VS_REAL, include_real=["version_set.c", "util/vector.c"], kit=VS_KIT + ["vp_buffer_c17.c"],
-               defs={"VP_B0": b0, "VP_B1": b1, "VP_B2": b2, "VP_ROT": rot, "VP_RECCAP": reccap,
+               defs={"VP_B0": b0, "VP_B1": b1, "VP_B2": b2, "VP_ROT": rot, "VP_RECCAP": reccap, "VP_L2LEVEL": l2level,
                      "VP_SLAB": reccap * 3 // 2 + 8, "VP_VEC_CAP": 8},
                replace_calls=EDIT_REPLACE, restrict_fp=[],
                flags=["--max-field-sensitivity-array-size", str(reccap * 3 // 2 + 9)],
@@ -73,6 +73,8 @@ def replay_obl(b0, b1, b2, rot, tier="quick"):
 
 
 OBLIGATIONS.append(replay_obl(1, 2, 1, 0))
+# the third group of files on the deepest level (every per-level loop must reach level 6)
+OBLIGATIONS.append(replay_obl(1, 0, 1, 2, l2level=6))
 OBLIGATIONS.append(replay_obl(2, 1, 0, 3))
 OBLIGATIONS.append(replay_obl(0, 2, 2, 6, tier="thorough"))
 OBLIGATIONS.append(replay_obl(2, 2, 2, 1, tier="thorough"))
